@@ -9,12 +9,14 @@ Local Open Scope N_scope.
    spaces, the XML declaration, the default version, the IQ type names. *)
 Theorem C12_tables :
   (send_literals =
-   [ str "<open xmlns=""urn:ietf:params:xml:ns:xmpp-framing"" version='%s'";
+   [ str "open"; str "stream";
+     str "<open xmlns=""urn:ietf:params:xml:ns:xmpp-framing"" version='%s'";
      str "<stream:stream xmlns='%s' xmlns:stream='http://etherx.jabber.org/streams' version='%s'";
      str "id"; str "to"; str "from"; str "xml:lang"; str "/>"; str ">" ] /\
    write_attr_literals = [ str " %s='" ] /\
    send_attr_calls = [ (str "id", str "id"); (str "to", str "to"); (str "from", str "from"); (str "xml:lang", str "lang") ] /\
-   send_escaped_params = [ str "value" ]) /\
+   send_escaped_params = [ str "value" ] /\
+   send_recorded_names = [ (str "wsNamespace", str "open"); (str "stream.NS", str "stream") ]) /\
   (ns_stream = str "http://etherx.jabber.org/streams" /\
    ns_stream_error = str "urn:ietf:params:xml:ns:xmpp-streams" /\
    ns_client = str "jabber:client" /\ ns_server = str "jabber:server" /\
@@ -52,6 +54,15 @@ Theorem C12_header_wellformed_and_recovered_ws :
     Some (ws_token ver lang to from id, true, rest).
 Proof. exact read_start_ws. Qed.
 Print Assumptions C12_header_wellformed_and_recovered_ws.
+
+(* The opening element Send records in the output stream info (from which Close
+   picks the closing element) is the element the peer reads: the two tokens of
+   the theorems above carry the name [send_name]. *)
+Theorem C12_send_records_opening_element :
+  (forall xmlns ver lang to from id, tok_name (tcp_token xmlns ver lang to from id) = send_name false) /\
+  (forall ver lang to from id, tok_name (ws_token ver lang to from id) = send_name true).
+Proof. exact send_name_is_printed. Qed.
+Print Assumptions C12_send_records_opening_element.
 
 (* Version.String then ParseVersion is the identity on every version. *)
 Theorem C12_version_roundtrip :
@@ -230,7 +241,9 @@ Print Assumptions C12_bind_initiator_adopts_assigned.
 
 (* The receiver answers the request's id, addresses swapped, with the address
    the callback chose (VJid; the default verdict is a fresh resource on the
-   remote bare address), or with the callback's stanza error typed "error". *)
+   remote bare address) and is ready, or with the callback's stanza error in a
+   reply typed "error", after which the negotiation step fails with that stanza
+   error (nothing was bound: not ready); any other callback error: no reply. *)
 Theorem C12_bind_receiver_answers_request :
   forall parse s2s attrs kids v q,
     decode_bind_iq parse attrs kids = Some q ->
@@ -242,15 +255,15 @@ Theorem C12_bind_receiver_answers_request :
          flatten (NElem (content_ns s2s) (str "iq") (iq_attrs iq_result (b_from q) (b_to q) (attr_first (str "id") attrs))
                         [NElem ns_bind (str "bind") [] (payload_nodes [] j)]))
     | VStanzaErr en =>
-        (BReady, Some (b_resource q),
+        (BStanzaErr, Some (b_resource q),
          flatten (NElem (content_ns s2s) (str "iq") (iq_attrs iq_error (b_from q) (b_to q) (attr_first (str "id") attrs)) en))
     end.
 Proof. exact bind_server_reply. Qed.
 Print Assumptions C12_bind_receiver_answers_request.
 
 (* Both sides together: request -> receiver -> reply -> initiator adopts the
-   address the callback chose; a callback error reaches the initiator as an
-   error and leaves its address alone. *)
+   address the callback chose; a callback stanza error fails the receiver's
+   step, reaches the initiator as an error and leaves its address alone. *)
 Theorem C12_bind_roundtrip :
   forall parse reqid res j local,
     is_nil (jid_string j) = false -> parse (jid_string j) = Some j -> j <> jid_zero ->
@@ -264,7 +277,7 @@ Theorem C12_bind_roundtrip_error :
   forall parse reqid res ens a ks local,
     exists n,
       bind_server parse false (IElem (bind_request reqid res)) (VStanzaErr [NElem ens (str "error") a ks])
-        = (BReady, Some res, flatten n) /\
+        = (BStanzaErr, Some res, flatten n) /\
       bind_client parse reqid (IElem n) local = (BStanzaErr, local).
 Proof. exact bind_roundtrip_error. Qed.
 Print Assumptions C12_bind_roundtrip_error.
@@ -279,3 +292,18 @@ Theorem C12_bind_receiver_default_address :
     (j_domain remote = [] -> default_verdict remote rid = VFail).
 Proof. exact default_verdict_spec. Qed.
 Print Assumptions C12_bind_receiver_default_address.
+
+(* Fresh per negotiation: any number of bind negotiations performed with one and
+   the same feature value and no callback (peer address known, request decodes).
+   The k-th negotiation is ready and answers with the k-th attr.RandomID() draw
+   as resource on its own peer's bare address; when the draws are pairwise
+   distinct so are the assigned resourceparts. *)
+Theorem C12_bind_receiver_fresh_per_negotiation :
+  forall parse s2s negs,
+    Forall (neg_ok parse s2s) negs ->
+    bind_default_many parse s2s negs = map (default_reply parse s2s) negs /\
+    Forall (fun r => fst r = BReady) (bind_default_many parse s2s negs) /\
+    map j_res (map assigned negs) = map snd negs /\
+    (NoDup (map snd negs) -> NoDup (map j_res (map assigned negs))).
+Proof. exact bind_fresh_per_negotiation. Qed.
+Print Assumptions C12_bind_receiver_fresh_per_negotiation.
